@@ -2079,7 +2079,8 @@ class LazyStackedTensorDict(TensorDictBase):
                 {},
                 batch_size=batch_size,
                 device=device if device is not NO_DEFAULT else self.device,
-                names=names if names else self._maybe_names(),
+                # a new batch size erases the names, as in TensorDict._apply_nest
+                names=None if names is NO_DEFAULT else names,
             )
             return TensorDict._apply_nest(
                 self,
